@@ -12,8 +12,12 @@ Record input := { tree : node; caller : store; ops : list op }.
 Definition otags := option (list tag).          (* test_tags as a value: None or the set *)
 Inductive entry := EStart | EStop | ESt (e : event otags) | EFired.
 
-(* what one call did: did it raise; for every leaf (left to right) the entries it newly logged,
-   with every logged tag set read at the END of the run; the caller's sets right after the call *)
+(* what one call did: did it raise; for every leaf (left to right) the entries it newly logged;
+   the caller's sets right after the call.  A logged tag set is read at the END of the run (so that
+   a decorator which later changes a set it has handed out shows), unless the logged object is one
+   of the caller's own set objects: that one is read right after the call returns - what the CALLER
+   does to its own object afterwards is not the decorators' doing, and whether a sink is handed the
+   caller's object or an equal copy is left open by the statement. *)
 Record step_obs := { s_raised : bool; s_new : list (list entry); s_caller : store }.
 Record obs := { o_steps : list step_obs }.
 
@@ -65,18 +69,18 @@ Definition set_diff (a b : list tag) : list tag := canon (fun t => mem t a && ne
 (* tags on the way down: still the caller's own object, or a new set with this value *)
 Inductive tagstate := Orig (r : tagref) | Fresh (v : list tag).
 
-(* now: the caller's sets at the time of the call *)
+(* now: the caller's sets at the time of the call.  The caller's argument enters only through
+   the VALUE it has at that time (deref / tags_or_empty now): not which object carries it, not
+   what that object held at earlier calls, not what the caller makes of it later. *)
 Definition tag_step (now : store) (x : tagstate) (s : pstep) : tagstate :=
   match s with
   | PTag add discard =>
       Fresh (set_diff (set_union (match x with Orig r => tags_or_empty now r | Fresh v => v end) add) discard)
   | _ => x
   end.
-(* fin: the caller's sets at the end of the run (a sink that was handed the caller's own
-   set object sees whatever the CALLER does to it later) *)
-Definition tag_finish (fin : store) (x : tagstate) : otags :=
+Definition tag_finish (now : store) (x : tagstate) : otags :=
   match x with
-  | Orig r => deref fin r
+  | Orig r => deref now r             (* no tagger above: the caller's argument as it is at the call *)
   | Fresh [] => None                  (* `test_tags or None` *)
   | Fresh v => Some v
   end.
@@ -87,9 +91,9 @@ Definition is_stamp (s : pstep) : bool := match s with PStamp => true | _ => fal
 Definition fill (t : tsv) : tsv := match t with TsNone => TsFilled | TsGiven k => TsGiven k | TsFilled => TsFilled end.
 
 (* the status call a sink below the decorators p receives for the caller's status(e) *)
-Definition expect_event (now fin : store) (p : path) (e : event tagref) : event otags :=
+Definition expect_event (now : store) (p : path) (e : event tagref) : event otags :=
   Evt (v_id e) (v_status e)
-      (tag_finish fin (fold_left (tag_step now) p (Orig (v_tags e))))
+      (tag_finish now (fold_left (tag_step now) p (Orig (v_tags e))))
       (v_runnable e) (v_file e) (v_bytes e) (v_eof e) (v_mime e)
       (fold_left route_step p (v_route e))
       (if existsb is_stamp p then fill (v_ts e) else v_ts e).
@@ -99,11 +103,11 @@ Definition is_failure (s : option nat) : bool :=
   match s with Some k => Nat.eqb k st_fail || Nat.eqb k st_uxsuccess | None => false end.
 
 (* what a leaf newly logs at a call *)
-Definition expect_new (now fin : store) (o : op) (pk : path * leafkind) : list entry :=
+Definition expect_new (now : store) (o : op) (pk : path * leafkind) : list entry :=
   match o, snd pk with
   | OStart, LSink => [EStart]
   | OStop, LSink => [EStop]
-  | OStatus e, LSink => [ESt (expect_event now fin (fst pk) e)]
+  | OStatus e, LSink => [ESt (expect_event now (fst pk) e)]
   | OStatus e, LFail => if is_failure (v_status e) then [EFired] else []
   | _, _ => []
   end.
@@ -116,9 +120,8 @@ Definition caller_after (st : store) (past : list op) : store := fold_left calle
 (* ---------- the statement, executable ---------- *)
 Definition step_okb (i : input) (past : list op) (o : op) (so : step_obs) : bool :=
   let now := caller_after (caller i) past in
-  let fin := caller_after (caller i) (ops i) in
   negb (s_raised so)
-  && list_eqb (list_eqb entry_eqb) (s_new so) (map (expect_new now fin o) (leaves (tree i)))
+  && list_eqb (list_eqb entry_eqb) (s_new so) (map (expect_new now o) (leaves (tree i)))
   && store_eqb (s_caller so) (caller_step now o).      (* no call changes the caller's objects *)
 
 Fixpoint steps_okb (i : input) (past : list op) (l : list op) (os : list step_obs) : bool :=
@@ -133,9 +136,8 @@ Definition spec_okb (i : input) (o : obs) : bool := steps_okb i [] (ops i) (o_st
 (* ---------- the statement, readable ---------- *)
 Definition Step_spec (i : input) (past : list op) (o : op) (so : step_obs) : Prop :=
   let now := caller_after (caller i) past in
-  let fin := caller_after (caller i) (ops i) in
   s_raised so = false
-  /\ s_new so = map (expect_new now fin o) (leaves (tree i))
+  /\ s_new so = map (expect_new now o) (leaves (tree i))
   /\ s_caller so = caller_step now o.
 
 Definition Spec (i : input) (o : obs) : Prop :=
